@@ -207,6 +207,16 @@ pub (crate) fn bid128_to_string(x: &BID_UINT128, fmt: &mut Formatter<'_>, upperE
 /// Convert a decimal floating-point value represented in string format
 /// (decimal character sequence) to 128-bit decimal floating-point format (binary encoding)
 pub (crate) fn bid128_from_string(str: &str, rnd_mode: RoundingMode, pfpsf: &mut _IDEC_flags) -> BID_UINT128 {
+    // The underflow packers learn whether *this* operation is inexact from the inexact bit of the status
+    // word they are handed, so they must not see bits left over from earlier operations: work on a clear
+    // word and merge it into the caller's.
+    let mut fpsf: _IDEC_flags = StatusFlags::BID_EXACT_STATUS;
+    let res: BID_UINT128 = bid128_from_string_clear_status(str, rnd_mode, &mut fpsf);
+    *pfpsf |= fpsf;
+    res
+}
+
+fn bid128_from_string_clear_status(str: &str, rnd_mode: RoundingMode, pfpsf: &mut _IDEC_flags) -> BID_UINT128 {
     let mut CX: BID_UINT128  = Default::default();
     let mut res: BID_UINT128 = Default::default();
     let mut coeff_high: BID_UINT64;
